@@ -84,9 +84,9 @@ CHECKS['C10'] = dict(
     engine='crosshair',
     technique='CrossHair symbolic execution (z3) of the real resolveArguments with symbolic characters in a producer name; counterexamples replayed natively',
     text='The real ComponentSpecification.resolveArguments runs on a subclass overriding only data-providing properties; one producer name '
-         '(<=2 symbolic characters) is set against the representatives A, AB, A1 in both spellings, both declaration orders, option prefixes, '
-         'output references, symbolic file contents of an :output reference, and the same name in two stages. Bug-hunting strength (CrossHair does not exhaust these conditions); the '
-         'substring-replacement defect it finds is a listed known finding.',
+         '(<=2 symbolic characters of the alphabet the loader accepts in a reference token, [A-Za-z0-9_-]) is set against the representatives A, AB, A1 in both spellings, both declaration orders, option prefixes, '
+         'output references, symbolic file contents of an :output reference, and the same name in two stages. Bug-hunting strength (CrossHair does not exhaust these conditions; '
+         'one path through the function costs ~10 s); the substring-replacement defect it found is repaired (0a3e1fc).',
     note='DataReference.resolve stubbed to a distinct token per reference; is_raw=True (fill_in skipped); native sweep over a 6-letter alphabet.',
     design='DESIGN.md section 2 C10')
 
@@ -97,7 +97,7 @@ CHECKS['C03'] = dict(
          'literal or via a variable, relative/absolute spellings, file paths - is loaded through the real graphFromFlowIR and its nodes, '
          'edges, per-copy references, arguments and replica variable are compared with an independent expander (exhaustive within the bound). '
          'E2: CrossHair searches the textual rewriting (compile_component_replica/aggregate) with a symbolic producer name; bug-hunting strength.',
-    note='E1 uses concrete non-overlapping names; the suffix-overlap rewriting defect found by E2 is a listed known finding.',
+    note='E1 uses two concrete name families (non-overlapping; Sim/PreSim where one name is the tail of the other); E2 names range over the alphabet the loader accepts in a reference token; the suffix-overlap rewriting defect found by E2 is repaired (0a3e1fc).',
     design='DESIGN.md section 2 C03')
 
 CHECKS['C05'] = dict(
